@@ -273,12 +273,13 @@ Print Assumptions C16_histc_handle_function_fixed.
 
 (** ** ALL histories, ZBDD kind (HISTz, Mgr/HistoryZ.v): add_vars in any state of any history.  For ZBDDs
     adding variables DOES change the Boolean view of a handle (new variables must be false) - what is
-    unchanged is the family of sets of variables.  The apply cache must not keep its Restrict entries
-    across add_vars ([cav_ok]): the example shows the wrong result the model (and the code) computes otherwise. *)
+    unchanged is the family of sets of variables.  The apply cache is kept across add_vars; its Restrict
+    entries are keyed by the number of levels: the examples show the state machine (= the code since f8637cd)
+    and the wrong result the un-keyed lookups (the code before) compute. *)
 From Coq Require Import Bool List NArith PArith FMapPositive.
 From OxiVerif Require Import DD.Sem DD.Build DD.Apply DD.ConfigApply DD.FamSpec DD.ZbddOps DD.ZbddOpsProofs DD.ZbddBool
   DD.ZbddBoolProofs DD.ZbddEvalProofs Mgr.LevelSwapZ Mgr.LevelSwapZProofs Mgr.HistoryExamples
-  Mgr.HistoryZ Mgr.HistoryZBase Mgr.HistoryZFam Mgr.HistoryZProofs Mgr.HistoryZThms Mgr.HistoryZSpec Mgr.HistoryZTie
+  Mgr.HistoryZ Mgr.HistoryZBase Mgr.HistoryZCache Mgr.HistoryZFam Mgr.HistoryZProofs Mgr.HistoryZThms Mgr.HistoryZSpec Mgr.HistoryZTie
   Mgr.HistoryZExamples.
 
 Theorem C16_histz_add_vars_keeps_families :
@@ -287,11 +288,9 @@ Theorem C16_histz_add_vars_keeps_families :
   zlossy C cget cadd ->
   forall cempty : C,
   (forall (k : N) (a : list ref) (m : list nat), cget cempty k a m = None) ->
-  forall cav : C -> C,
-  cav_ok C cget cav ->
   forall (st : hstate_z C) (k : nat) (st' : hstate_z C),
   HInvZ C cget st ->
-  hstep_z gt C cget cadd cempty cav st (ZHAddVars k) = Some st' ->
+  hstep_z gt C cget cadd cempty st (ZHAddVars k) = Some st' ->
   HInvZ C cget st' /\
   nlevels (hz_s C st') = nlevels (hz_s C st) + k /\
   s_handles (hz_s C st') = s_handles (hz_s C st) /\
@@ -315,12 +314,10 @@ Theorem C16_histz_handle_family_fixed :
   zlossy C cget cadd ->
   forall cempty : C,
   (forall (k : N) (a : list ref) (m : list nat), cget cempty k a m = None) ->
-  forall cav : C -> C,
-  cav_ok C cget cav ->
   forall (ops : list zhop) (st st' : hstate_z C),
   HInvZ C cget st ->
-  zhops_pre gt C cget cadd cempty cav st ops ->
-  hrun_z gt C cget cadd cempty cav st ops = Some st' ->
+  zhops_pre gt C cget cadd cempty st ops ->
+  hrun_z gt C cget cadd cempty st ops = Some st' ->
   forall (x : N) (e : edge),
   (forall o : zhop, In o ops -> zhdst o <> Some x) ->
   hget (s_handles (hz_s C st)) x = Some e ->
@@ -334,24 +331,27 @@ Theorem C16_histz_handle_family_fixed :
 Proof. exact histz_slot_stable. Qed.
 Print Assumptions C16_histz_handle_family_fixed.
 
-(* a full flush and a Restrict-only invalidation satisfy the hypothesis, keeping every entry does not *)
-Theorem C16_histz_cav_instances :
-  cav_ok zacache zac_get zcavA /\ cav_ok zacache zac_get zcavR /\ ~ cav_ok zacache zac_get zcavI.
-Proof. exact (conj zcavA_ok (conj zcavR_ok zcavI_not_ok)). Qed.
-Print Assumptions C16_histz_cav_instances.
+(* restrict, add_vars, the same restrict: computed afresh, the cofactor; the kept cache holds one entry per number of levels *)
+Theorem C16_histz_example_keyed_restrict :
+  hget (s_handles (hz_s zacache exz_keyed)) 3 <> hget (s_handles (hz_s zacache exz_keyed)) 2 /\
+  bfun_eqb 3 (zbfun_of (hz_s zacache exz_keyed) (zslot_ref zacache exz_keyed 3))
+  (restrict_s ((1, true) :: (2, false) :: nil) (zbfun_of (hz_s zacache exz_keyed) (zslot_ref zacache exz_keyed 0))) = true /\
+  zac_get (hz_c zacache exz_keyed) zcode_restrict (zslot_ref zacache exz_keyed 0 :: zslot_ref zacache exz_keyed 1 :: nil)
+  (2 :: nil) = Some (zslot_ref zacache exz_keyed 2) /\
+  zac_get (hz_c zacache exz_keyed) zcode_restrict (zslot_ref zacache exz_keyed 0 :: zslot_ref zacache exz_keyed 1 :: nil)
+  (3 :: nil) = Some (zslot_ref zacache exz_keyed 3).
+Proof. exact exz_restrict_keyed. Qed.
+Print Assumptions C16_histz_example_keyed_restrict.
 
-(* restrict, add_vars, the same restrict: with a cache that keeps its entries the second call returns the first call's edge, which is not the cofactor; with a flushed cache it is *)
-Theorem C16_histz_example_stale_restrict :
-  hget (s_handles (hz_s zacache exz_stale)) 3 = hget (s_handles (hz_s zacache exz_stale)) 2 /\
-  bfun_eqb 3 (zbfun_of (hz_s zacache exz_stale) (zslot_ref zacache exz_stale 3))
-  (restrict_s ((1, true) :: (2, false) :: nil) (zbfun_of (hz_s zacache exz_stale) (zslot_ref zacache exz_stale 0))) =
-  false /\
-  hget (s_handles (hz_s zacache exz_flushed)) 3 <> hget (s_handles (hz_s zacache exz_flushed)) 2 /\
-  bfun_eqb 3 (zbfun_of (hz_s zacache exz_flushed) (zslot_ref zacache exz_flushed 3))
-  (restrict_s ((1, true) :: (2, false) :: nil) (zbfun_of (hz_s zacache exz_flushed) (zslot_ref zacache exz_flushed 0))) =
-  true.
-Proof. exact exz_restrict_stale. Qed.
-Print Assumptions C16_histz_example_stale_restrict.
+(* the same calls with un-keyed Restrict lookups on the kept cache: the second call returns the first call's edge, which is not the cofactor *)
+Theorem C16_histz_example_unkeyed_restrict :
+  match exz_unkeyed with
+  | Some (r1, r3, f, s3) =>
+  r3 = r1 /\ bfun_eqb 3 (zbfun_of s3 r3) (restrict_s ((1, true) :: (2, false) :: nil) (zbfun_of s3 f)) = false
+  | None => False
+  end.
+Proof. exact exz_restrict_unkeyed. Qed.
+Print Assumptions C16_histz_example_unkeyed_restrict.
 
 (* in the 31-call history the restrict after add_vars is computed afresh and is the cofactor *)
 Theorem C16_histz_example :
